@@ -551,9 +551,67 @@ fn corrupt(xml: &str, r: &mut Prng) -> String {
     cs.into_iter().collect()
 }
 
+/// the crate the harness is built against: the path dependency of the harness' own Cargo.toml
+fn crate_dir() -> Option<String> {
+    let toml = include_str!("../Cargo.toml");
+    let i = toml.find("digital_test_runner")?;
+    let rest = &toml[i..];
+    let j = rest.find("path = \"")? + 8;
+    let k = rest[j..].find('"')?;
+    Some(rest[j..j + k].to_string())
+}
+
+/// The `.dig` documents that come with the crate (`tests/data/*.dig`, written by Digital itself): loaded by the
+/// implementation and by the model (fed the DOM roxmltree built), every test loaded by index and by name — real documents
+/// besides the generated ones.
+fn real_documents(ctx: &mut Ctx, suite: &str) {
+    let Some(dir) = crate_dir() else { return };
+    let Ok(rd) = std::fs::read_dir(format!("{dir}/tests/data")) else { return };
+    let mut files: Vec<std::path::PathBuf> = rd.filter_map(|e| e.ok().map(|e| e.path())).filter(|p| p.extension().map(|x| x == "dig").unwrap_or(false)).collect();
+    files.sort();
+    for f in files {
+        let Ok(xml) = std::fs::read_to_string(&f) else { continue };
+        ctx.tick(&format!("{}", f.display()));
+        // the labels that occur in the document (as written), plus two names no test has
+        let mut names: Vec<String> = vec!["(unnamed)".into(), "no such test".into()];
+        let mut rest = xml.as_str();
+        while let Some(i) = rest.find("<string>Label</string>") {
+            rest = &rest[i + 22..];
+            if let (Some(a), Some(b)) = (rest.find("<string>"), rest.find("</string>")) {
+                if a < b && b - a < 200 {
+                    names.push(rest[a + 8..b].to_string());
+                }
+            }
+        }
+        names.sort();
+        names.dedup();
+        let names: Vec<String> = names.into_iter().filter(|n| !n.is_empty() && !n.contains('&') && !n.contains('<')).collect();
+        let il = run_imp(&xml, &names);
+        ctx.report.evaluations += 1;
+        ctx.report.bump("real-document");
+        ctx.report.distinct.insert(fnv(&xml));
+        if il.iter().any(|l| l.contains(" panic")) {
+            push(ctx, "oracle", suite, 0, format!("loading {} panicked: {:?}", f.display(), il.iter().find(|l| l.contains(" panic"))), &xml, &il, &[]);
+            continue;
+        }
+        if let Ok(dump) = verif_hooks::dom_dump(&xml) {
+            let hn: Vec<String> = names.iter().map(|n| hex(n)).collect();
+            let m = ctx.model.ask(&format!("dig {dump} | {}", hn.join(" ")));
+            if significant(&il) != significant(&m) {
+                push(ctx, "model", suite, 0, format!("{}: {}", f.display(), crate::suites::first_diff_pub(&significant(&il), &significant(&m))), &xml, &il, &m);
+            }
+        } else if il[0] != "dig err" {
+            push(ctx, "oracle", suite, 0, format!("{}: roxmltree rejects the text but the loader returned a file", f.display()), &xml, &il, &[]);
+        }
+    }
+}
+
 pub fn suite_dig(ctx: &mut Ctx, suite: &str, n: u64) {
     if ctx.only_suite.as_deref().map(|s| s != suite).unwrap_or(false) {
         return;
+    }
+    if ctx.part == 0 && ctx.only_case.is_none() {
+        real_documents(ctx, suite);
     }
     for idx in 0..n {
         let cs = crate::suites::case_seed_pub(ctx.seed, suite, idx);
